@@ -161,6 +161,62 @@ def walk(r, cap, steps, overrun=False):
     return ops[:steps]
 
 
+# Capacities with every residue structure an index shortcut could depend on (1, 2, powers of two and their
+# neighbours, even non-powers of two, odd composites, primes, multiples of 3 and of 10), next to the small
+# exhaustive range: `& (cap - 1)` instead of `% cap` is right for powers of two only, `if i >= cap {i - cap}`
+# only for one wrap, and so on.  (S-C12 / round 3: a mask guarded by `cap % 2 == 0` went unnoticed because no
+# generated capacity was even without being a power of two.)
+CAPSET = (1, 2, 3, 4, 5, 6, 7, 8, 9, 10, 12, 15, 16, 17, 24, 31, 32, 33, 48, 63, 64, 65, 96, 100, 127, 128, 129,
+          255, 256, 257)
+
+
+def cap_leads(cap):
+    """leads held in the capset family: every value 0..cap for the small capacities, the corners for the others"""
+    if cap <= 10:
+        return list(range(cap + 1))
+    return sorted({0, 1, 2, 3, cap // 2, cap - 2, cap - 1, cap})
+
+
+def lead_phase(x, y, lead, cap, resplit):
+    """branch x gets `lead` frames ahead of y (then, with `resplit`, the pair is dropped and the fork split again
+    by reference: at lead == cap the queue is full at that moment); the lead is held at exactly `lead` while
+    cap + 2 further frames pass through the queue, so the ring's write and read indices go once round the whole
+    storage; y catches up completely and pulls once more (the queue changes hands with nothing in it), x draws
+    level.  The lead never exceeds max(lead, 1) <= cap."""
+    nx, ny = "n" + x, "n" + y
+    ops = [nx] * lead
+    if resplit:
+        ops.append("ref")
+    for _ in range(cap + 2):
+        ops += [ny, nx] if lead >= 1 else [nx, ny]
+    ops += [ny] * lead
+    if resplit:
+        ops.append("ref")
+    ops += [ny, nx]
+    return ops
+
+
+def capset_cases(idx0):
+    """deterministic: every capacity of CAPSET x every lead of cap_leads x split mode (by reference throughout with
+    re-splits at the lead and at level / by_rc from the start / by_rc between the phases) with A leading in one
+    phase and B in the other; each case pushes >= 2 cap + 4 frames: the ring indices wrap at least twice.
+    Capacities <= 10: all six (mode, first leader) combinations per lead; above: one per lead, rotated, so that every
+    capacity meets all six and every (capacity, lead) meets both leaders and a by_ref or by_rc pair (mostly both)."""
+    combos = [(m, x) for x in ("a", "b") for m in ("ref", "rc", "mid")]
+    out, idx = [], idx0
+    for cap in CAPSET:
+        for j, lead in enumerate(cap_leads(cap)):
+            for mode, x in (combos if cap <= 10 else [combos[(j + cap) % 6]]):
+                y = "b" if x == "a" else "a"
+                ops = (["rc"] if mode == "rc" else []) + lead_phase(x, y, lead, cap, mode != "rc")
+                ops += (["rc"] if mode == "mid" else []) + lead_phase(y, x, lead, cap, mode == "ref")
+                start = (0, cap - 1, cap // 2, 1 % cap, (2 * cap) // 3)[idx % 5]
+                out.append(build(dict(kind="capset", nch=1 + (idx // 7) % 2, store=idx % 4, cap=cap, start=start,
+                                      len0=0, src=(0, 1, 3)[idx % 3], fin=-1, ops=ops)))
+                idx += 1
+    return out
+
+
 def sprinkle_splits(r, ops, by_rc):
     """insert re-splits by reference at random points and, optionally, one by_rc after them"""
     ops = list(ops)
@@ -219,12 +275,15 @@ def gen_cases(rng, tier):
                         items.append(build(dict(kind="split", nch=1, store=idx % 4, cap=cap, start=start, len0=0,
                                                 src=idx % 2, fin=-1, ops=ops)))
                         idx += 1
+    # 2b. every capacity of CAPSET, every lead (corner leads for the large ones), both branches leading, by_ref and
+    #     by_rc, re-split with the queue full, ring indices wrapping at least twice
+    items += capset_cases(idx)
     # 3. random long schedules with sign-flipping leads up to the capacity
-    n_rand = 160 if tier == "quick" else 500
+    n_rand = 130 if tier == "quick" else 500
     steps = 1000 if tier == "quick" else 1500
     for k in range(n_rand):
         r = rng.fork(f"walk{k}")
-        cap = r.choice([1, 1, 2, 2, 3, 3, 4, 5, 7, 8, 16, 33, 64])
+        cap = r.choice([1, 1, 2, 2, 3, 3, 4, 5, 7, 8, 16, 33, 64, 6, 10, 12, 24, 100])
         ops = walk(r, cap, steps if not r.chance(1, 4) else r.range(20, 200))
         ops = sprinkle_splits(r, ops, by_rc=r.chance(1, 2))
         items.append(build(dict(kind="walk", nch=r.choice([1, 1, 2]), store=r.below(4), cap=cap, start=r.below(cap),
@@ -232,7 +291,7 @@ def gen_cases(rng, tier):
     # 4. finite sources (signal::from_iter): schedules that run past the end
     for k in range(60 if tier == "quick" else 300):
         r = rng.fork(f"fin{k}")
-        cap = r.choice([1, 2, 3, 4, 8])
+        cap = r.choice([1, 2, 3, 4, 8, 6, 12])
         fin = r.range(0, 30)
         ops = walk(r, cap, r.range(10, 90))
         ops = sprinkle_splits(r, ops, by_rc=r.chance(1, 2))
@@ -241,7 +300,7 @@ def gen_cases(rng, tier):
     # 5. malformed stream: leads beyond the capacity (frames are lost), non-empty / invalid ring buffers
     for k in range(120 if tier == "quick" else 600):
         r = rng.fork(f"over{k}")
-        cap = r.choice([1, 1, 2, 3, 4, 8])
+        cap = r.choice([1, 1, 2, 3, 4, 8, 6, 12, 10, 15])
         ops = walk(r, cap, r.range(10, 120), overrun=True)
         ops = sprinkle_splits(r, ops, by_rc=r.chance(1, 2))
         items.append(build(dict(kind="overrun", nch=r.choice([1, 2]), store=r.below(4), cap=cap, start=r.below(cap),
@@ -399,10 +458,11 @@ def main(rep, tier, seed):
             "pending_flag_flips_per_case": hist_flips,
             "lead_respecting_wellformed_cases": n_valid, "of_which_lead_reaches_capacity": n_reach,
             "of_which_flag_flips_at_least_twice": n_flip2, "overrunning_schedules": lost,
-            "all_interleavings_cases": n_exh, "corpus_cases": len(corpus),
+            "all_interleavings_cases": n_exh, "capset_capacities": list(CAPSET),
+            "capset_cases_lead_equals_capacity": sum(1 for it in items if it["kind"] == "capset" and simulate(it)["max_lead"] == it["cap"]), "corpus_cases": len(corpus),
             "total_operations": sum(hist_ops.values())}
     samples = []
-    for kind in ("exh", "split", "walk", "finite", "overrun", "ctor"):
+    for kind in ("exh", "split", "capset", "walk", "finite", "overrun", "ctor"):
         samples += [it["line"][:240] for it in items if it["kind"] == kind][:1]
     return finish(rep, info, len(items), len(nontriv), dist, samples, bad, len(verdict_bad))
 
@@ -428,7 +488,7 @@ def finish(rep, info, n, nontriv, dist, samples, bad=(), verdict_bad=0):
             "modelled, not verified: RefCell/Rc/& sharing of ForkShared as one functional state threaded through the branch operations; the source signal as a function nat -> frame with a pull counter; usize as nat; the Bounded model of Ring/Bounded.v (tied by C06)"] + G.TRUSTED,
         "theorems": th, "axioms_reported": info.get("axioms", []),
         "evaluations": n, "distinct_nontrivial": nontriv,
-        "rule": "all 2^12 next_A/next_B interleavings for capacities 1..3 (ring-buffer start, storage kind, source kind, mono/stereo rotated), re-split/by_rc at every cut of all valid length-5 schedules, 160 random 1000-step lead walks between +-capacity (capacities 1..64) with re-splits and by_rc, finite sources, overrunning and malformed-constructor cases (thorough: plus every lead-respecting interleaving of length 16 for capacities 1..3 and 500 walks of 1500 steps); non-trivial = a well-formed lead-respecting schedule in which the lead reaches the capacity or the pending flag flips at least twice",
+        "rule": "all 2^12 next_A/next_B interleavings for capacities 1..3 (ring-buffer start, storage kind, source kind, mono/stereo rotated), re-split/by_rc at every cut of all valid length-5 schedules, the capset family (30 capacities 1..257 covering powers of two and their neighbours, even non-powers of two, odd composites and primes x every lead 0..cap for cap <= 10, leads {0,1,2,3,cap/2,cap-2,cap-1,cap} above x A leading then B leading x by_ref with re-splits at the lead and at level / by_rc / by_rc between the phases; every case wraps the ring indices at least twice), 130 random 1000-step lead walks between +-capacity (capacities 1..100) with re-splits and by_rc, finite sources, overrunning and malformed-constructor cases (thorough: plus every lead-respecting interleaving of length 16 for capacities 1..3 and 500 walks of 1500 steps); non-trivial = a well-formed lead-respecting schedule in which the lead reaches the capacity or the pending flag flips at least twice",
         "samples": samples, "input_distribution": dist, "disagreements": len(bad),
         "property_verdict_failures_on_implementation": verdict_bad,
         "explanation": "theorems: refinement of the Fork model to two stream positions for all capacities, ring-buffer starts and lead-respecting schedules (frames, pull counter, pending counts, queue contents), re-split identity, behaviour on overrun; tie: the model's executable definitions run by coqc on the same cases as the real crate, all observations compared exactly, and the property's verdict re-evaluated on the implementation's observations",
